@@ -164,7 +164,7 @@ func PetsData(variant int) (*PetRoot, *model.Graph) {
 		q.Typed = append(q.Typed, o.(PetI))
 	}
 	q.Name, q.Buddy, q.Twin, q.Me, q.WithMe = "the root", d1, q, q, []interface{}{d1, q, h1, c2}
-	nq := node("Query", map[string]interface{}{"name": "the root", "buddy": nd1,"pets": model.VList(rn), "animals": model.VList(rn), "pet": rn[0], "animal": rn[1],
+	nq := node("Query", map[string]interface{}{"name": "the root", "buddy": nd1, "pets": model.VList(rn), "animals": model.VList(rn), "pet": rn[0], "animal": rn[1],
 		"cats": model.VList{nc1, nc2}, "lions": model.VList{nl1}, "typed": model.VList(rn), "dogCopy": nd1})
 	nq.F["twin"], nq.F["me"], nq.F["withMe"] = nq, nq, model.VList{nd1, nq, nh1, nc2}
 	hv := &HoundView{Name: "view of rolf", Pack: 1}
